@@ -166,7 +166,8 @@ fn corpus(sink: &mut Sink) {
     let keys = ["0", "1", "12", "-3", "01", "1.0", "1e0", "true", "false", "", " 1", "1 ", "+1", "-0", "-", "00", "a", "é", "ab", "V", "W", "255", "256", "-128", "-129",
         "65535", "65536", "4294967295", "4294967296", "18446744073709551615", "18446744073709551616", "-9223372036854775808", "-9223372036854775809",
         "340282366920938463463374607431768211455", "340282366920938463463374607431768211456", "-170141183460469231731687303715884105728",
-        "-170141183460469231731687303715884105729", "1\"", "\"1\"", "1\n", "\n", "null", "True", "-1e0", "0.0", "9".repeat(45).leak() as &str];
+        "-170141183460469231731687303715884105729", "1\"", "\"1\"", "1\n", "\n", "null", "True", "-1e0", "0.0", "7\u{0}", "7\u{0}8", "\u{0}7", "7\t", "7\u{1f}", "7,", "7}", "7:", "7]", "true\u{0}", "170141183460469231731687303715884105728",
+        "170141183460469231731687303715884105727", "340282366920938463463374607431768211454", "9".repeat(45).leak() as &str];
     let mut kinds = vec![KeyKind::Str, KeyKind::Bool, KeyKind::Char, KeyKind::UnitEnum(vec!["V".into(), "W".into(), "".into(), "1".into()])];
     for w in INT_TYS { kinds.push(KeyKind::Int(w)); }
     for k in &kinds {
